@@ -84,7 +84,7 @@ PROPS = {
                                       'interrupt actions interleaved): whole-history claims outside per-function contracts',
                          'bound': 'three-step process (async step awaiting a gate, Wait, Continue); all sequences of up to 3 requests from '
                                   '{pause, play, kill, resume} at 5 points (created, paused at a boundary, inside the running step, inside the waiting step, from a listener while entering the '
-                                  'waiting state): 562 histories'}],
+                                  'waiting state): about 1000 histories'}],
             'not_claimed': []},
     'C05': {'scans': [], 'trusted': [],
             'bounded': [{'name': 'control_history_search', 'recipe': 'control_histories', 'args': {'claims': ['C05']},
@@ -92,7 +92,7 @@ PROPS = {
                                       'interrupt actions interleaved): whole-history claims outside per-function contracts',
                          'bound': 'three-step process (async step awaiting a gate, Wait, Continue); all sequences of up to 3 requests from '
                                   '{pause, play, kill, resume} at 5 points (created, paused at a boundary, inside the running step, inside the waiting step, from a listener while entering the '
-                                  'waiting state): 562 histories'}],
+                                  'waiting state): about 1000 histories'}],
             'not_claimed': []},
     'C01': {'scans': ['allowed_subset_graph', 'state_written_only_by_the_machine'], 'trusted': [],
             'bounded': [{'name': 'control_history_search', 'recipe': 'control_histories', 'args': {'claims': ['C01']},
